@@ -37,6 +37,7 @@ def F():
         _f["hmin"] = z3.Function("hmin", HeapSort, NT)
         _f["hsize"] = z3.Function("hsize", HeapSort, z3.IntSort())
         _f["hcols"] = z3.Function("hcols", HeapSort, z3.IntSort(), z3.BoolSort())
+        _f["hlist"] = z3.Function("hlist", HeapSort, z3.SeqSort(NT))   # the list in array order (unspecified beyond its length and first element)
     return _f
 
 
@@ -155,6 +156,19 @@ def _contains(ex, container, item):
     return NotImplemented
 
 
+def _yield_from(ex, v, sty):
+    """`yield from heap`: the elements in array order - only the length and the first element are known"""
+    if not is_heap(v):
+        return None
+    f = F()
+    h = v.fields["heap"]
+    base_facts(ex, h)
+    ex.assume(z3.And(z3.Length(f["hlist"](h)) == f["hsize"](h),
+                     z3.Implies(f["hsize"](h) > 0, f["hlist"](h)[0] == f["hmin"](h))), "T-STD heapq: array order")
+    return f["hlist"](h)
+
+
+M.YIELD_FROM_HOOKS.append(_yield_from)
 M.TRUTHY_HOOKS.append(_truthy)
 M.GETITEM_HOOKS.append(_getitem)
 M.ITER_HOOKS.append(_iter)
